@@ -6,6 +6,7 @@ From SK Require Import model.C15_Ext proof.C15_Ext proof.C15_ExtQ proof.C15_ExtP
 From SK Require Import model.C15_View proof.C15_View.
 From SK Require Import model.C16_Model model.C15_ViewObs proof.C15_ViewGraph.
 From SK Require Import proof.C16_Defs model.C15_Repr proof.C15_Repr.
+From SK Require Import model.C15_Side proof.C15_Side model.C15_Bulk proof.C15_Bulk.
 Local Open Scope string_scope.
 
 (** ** 1. The store invariant *)
@@ -725,3 +726,76 @@ Theorem C15_repr_shape : forall (s : net),
                length tail = (if decide (mol s = ∅) then 1 else 2)%nat.
 Proof. exact repr_lines_shape. Qed.
 Print Assumptions C15_repr_shape.
+
+(** ** 10. (round 5) The mapping API of RXNSide on caller-held objects (model/C15_Side.v): what every mutator does to the
+    coefficient function [coef sd y] (0 = absent).  Sides are maps to POSITIVE counts in the model, so "a side is always a positive
+    integer multiset" holds by construction; the correspondence and the oracle check it on the implementation after every op. *)
+Theorem C15_side_ops_spec : forall (p : list side) (o : sop) (k : nat), (k < length p)%nat ->
+  let sd := getp p k in let sd' := getp (sstep p o).1 k in
+  match o with
+  | SNew k0 l => k0 = k -> forall y, coef sd' y = total y l
+  | SSet k0 x c => k0 = k -> forall y, coef sd' y = if decide (y = x) then Z.max 0 c else coef sd y
+  | SIncr k0 x b => k0 = k -> forall y, coef sd' y = if decide (y = x) then Z.max 0 (coef sd x + b) else coef sd y
+  | SPop k0 x d => k0 = k -> (forall y, coef sd' y = if decide (y = x) then 0%Z else coef sd y) /\
+                            (sstep p o).2 = topz (match sd !! x with Some c => Some (Z.pos c) | None => d end)
+  | SUpdate k0 l => k0 = k -> forall y, coef sd' y = (coef sd y + total y l)%Z
+  | SCopy k0 k' => k' = k -> sd' = getp p k0
+  | SQuery _ _ => sd' = sd
+  end.
+Proof. exact sstep_spec. Qed.
+Print Assumptions C15_side_ops_spec.
+
+(** an operation on one side object changes no other (copy() shares nothing: later edits of the original never reach the copy) *)
+Theorem C15_side_frame : forall (p : list side) (o : sop) (j : nat),
+  match o with SNew k _ | SSet k _ _ | SIncr k _ _ | SPop k _ _ | SUpdate k _ => j <> k | SCopy _ k' => j <> k' | SQuery _ _ => True end ->
+  (sstep p o).1 !! j = p !! j.
+Proof. exact sstep_frame. Qed.
+Print Assumptions C15_side_frame.
+
+(** ** 11. (round 5) The BULK entry points as operations of the history language (model/C15_Bulk.v: [op6] = [op2] + parse_rxns in
+    all its input forms + add_rxn_from_str; their models are those of C16).  A bulk call IS the sequence of individual additions it
+    stands for (seeded change C15-w4-2: `rules=` zipped through a dict dropped repeated lines). *)
+
+(** parse_rxns item by item: one add_rxn_from_str per item, in order, stopping at the first item that raises (the items before
+    it stay stored) *)
+Theorem C15_bulk_is_fold : forall (s : net) (it : string * option string) (items : list (string * option string))
+    (dr : string) (ps pf : bool),
+  parse_items s [] dr ps pf = (s, None) /\
+  parse_items s (it :: items) dr ps pf =
+    match parse_item s it.1 it.2 dr ps pf with
+    | (s', None) => parse_items s' items dr ps pf
+    | (s', Some e) => (s', Some e)
+    end /\
+  exists rule' ps', parse_item s it.1 it.2 dr ps pf = add_from_str s it.1 rule' ps'.
+Proof.
+  exact (fun s it items dr ps pf => conj (parse_items_nil s dr ps pf) (conj (parse_items_cons s it items dr ps pf)
+           (parse_item_is_add_from_str s it.1 it.2 dr ps pf))).
+Qed.
+Print Assumptions C15_bulk_is_fold.
+
+(** NO DEDUPLICATION: a parse_rxns that raises nothing stores exactly one reaction per item — repeated lines, repeated reactions
+    under different rules, lines equal to stored reactions included — after the reactions that were there (ids appended) *)
+Theorem C15_bulk_one_reaction_per_item : forall (items : list (string * option string)) (s : net) (dr : string) (ps pf : bool) (s' : net),
+  parse_items s items dr ps pf = (s', None) ->
+  length (order s') = (length (order s) + length items)%nat /\ order s `prefix_of` order s'.
+Proof. exact parse_items_count. Qed.
+Print Assumptions C15_bulk_one_reaction_per_item.
+
+(** a successful add_rxn_from_str stores exactly one new reaction, at the end, under an id that was free *)
+Theorem C15_add_from_str_one : forall (s : net) (line : string) (rule : option string) (ps : bool) (s' : net),
+  add_from_str s line rule ps = (s', None) ->
+  exists e rx, edges s !! e = None /\ edges s' = <[ e := rx ]> (edges s) /\ order s' = (order s ++ [e])%list.
+Proof. exact add_from_str_one. Qed.
+Print Assumptions C15_add_from_str_one.
+
+(** the store invariant holds in every world reachable through the extended language PLUS the bulk operations, whatever the
+    text (also after a bulk call that raised midway); a bulk call changes only its target network *)
+Theorem C15_inv_reachable_bulk : forall (n k : nat) (ops : list op6),
+  Forall Inv (nets (fold_left (fun w o => (step6 w o).1.1) ops (init_world2 n k))).
+Proof. exact run6_Inv. Qed.
+Print Assumptions C15_inv_reachable_bulk.
+Theorem C15_bulk_frame : forall (w : world2) (o : op6) (j : nat),
+  match o with B2 _ => False | BParse i _ _ _ _ | BAddStr i _ _ _ => j <> i end ->
+  nets (step6 w o).1.1 !! j = nets w !! j /\ pool (step6 w o).1.1 = pool w.
+Proof. exact step6_frame. Qed.
+Print Assumptions C15_bulk_frame.
